@@ -1,5 +1,5 @@
 #!/usr/bin/env python3
-"""Regenerate known_functions.json: the functions (module path -> qualified name -> statement-skeleton digest) of the
+"""Regenerate known_functions.json: the functions (module path -> qualified name -> statement skeleton) of the
 package the rules were written against.  Run on the pinned tree.
  * vk/inline.py analyses any function NOT listed here as part of its callers (an extracted helper);
  * vk/report.py reports a shape rule's VIOLATED verdict about a listed function whose skeleton has changed as UNDECIDED."""
@@ -13,6 +13,6 @@ from vk import skeleton
 prog = Program()
 out = {}
 for m in prog.modules.values():
-    out[m.path] = {q: skeleton.digest(fn) for q, (fn, _cls) in sorted(qualnames(m.tree).items())}
+    out[m.path] = {q: skeleton.skeleton(fn) for q, (fn, _cls) in sorted(qualnames(m.tree).items())}
 json.dump(out, open(os.path.join(HERE, "known_functions.json"), "w"), indent=1, sort_keys=True)
 print(sum(len(v) for v in out.values()), "functions in", len(out), "modules")
